@@ -124,7 +124,7 @@ static inline bool CFG_overwrite_rolled_files(Cfg const* c) { return c->overwrit
 void BASE_flush_and_fsync(RSF* self) __CPROVER_assigns(g_flushes) __CPROVER_ensures(g_flushes == OLD(g_flushes) + 1);
 static inline long GET_FILE_SIZE(RSF* self) { return self->g_file_size_on_disk; }
 void CLOSE_FILE(RSF* self) __CPROVER_assigns(g_closes, g_clock, g_t_close) __CPROVER_ensures(g_closes == OLD(g_closes) + 1 && g_clock == OLD(g_clock) + 1 && g_t_close == g_clock);
-/* naming + rename chain of the kept files (NOT covered: strings / std::filesystem) */
+/* naming + rename chain of the kept files (unit RS.rename_chain) */
 void RENAME_CHAIN(RSF* self) __CPROVER_assigns(g_renames, g_clock, g_t_rename) __CPROVER_ensures(g_renames == OLD(g_renames) + 1 && g_clock == OLD(g_clock) + 1 && g_t_rename == g_clock);
 void REMOVE_BACK_FILE(RSF* self) __CPROVER_requires(self->_created_files.n > 0) __CPROVER_assigns(g_removed_files, g_clock, g_t_remove) __CPROVER_ensures(g_removed_files == OLD(g_removed_files) + 1 && g_clock == OLD(g_clock) + 1 && g_t_remove == g_clock);
 void DQ_pop_back(DQ* d) __CPROVER_requires(d->n > 0) __CPROVER_assigns(d->n, g_pop_backs) __CPROVER_ensures(d->n == OLD(d->n) - 1 && g_pop_backs == OLD(g_pop_backs) + 1);
@@ -157,7 +157,7 @@ __CPROVER_ensures(self->_created_files.n <= (size_t)self->_config.max_backup_fil
 __CPROVER_ensures(!REFUSED(self, N0) ==> g_emplace_fronts == 1) /*@ C14 "the newly opened file is recorded as the newest" */
 ''')],
     harness='  RSF* s; uint64_t t; RS__rotate_files(s, t);',
-    dropped=['file names, date suffixes and the rename chain over the deque (one stub: NOT covered)', 'std::filesystem, flush/fsync internals'],
+    dropped=['file names, date suffixes and the rename chain over the deque (one stub here; the chain itself: unit RS.rename_chain for the Index scheme, native stand-ins for the date schemes)', 'std::filesystem, flush/fsync internals'],
     trusted=['_get_file_size reports the size on disk after flush+fsync'], min_obligations=30)
 UNITS.append(rotate_files)
 
